@@ -609,9 +609,48 @@ class _Interp:
             cur = nxt
         self.loops.pop()
         after = join_state(exit_state, cur)
+        self._overwrite_all(s, st, cur, after, elem)
         if s.orelse:
             after = self.block(s.orelse, after)
         return join_state(after, ctx.breaks)
+
+    def _overwrite_all(self, s: ast.For, before: State, cur: Optional[State], after: Optional[State], elem: AV):
+        """`for k, v in D.items(): ...; D[k] = X` over a container created in this function, without break/continue and with
+        the store at the top level of the body: every element of D is replaced, so afterwards D holds only X-values
+        (a strong update; the element-wise weak update would keep the original values as well)."""
+        if after is None or cur is None or s.orelse:
+            return
+        it = s.iter
+        dname = kname = None
+        if isinstance(it, ast.Call) and isinstance(it.func, ast.Attribute) and isinstance(it.func.value, ast.Name) and not it.args:
+            if it.func.attr == "items" and isinstance(s.target, ast.Tuple) and len(s.target.elts) == 2 and isinstance(s.target.elts[0], ast.Name):
+                dname, kname = it.func.value.id, s.target.elts[0].id
+            elif it.func.attr == "keys" and isinstance(s.target, ast.Name):
+                dname, kname = it.func.value.id, s.target.id
+        elif isinstance(it, ast.Name) and isinstance(s.target, ast.Name):
+            dname, kname = it.id, s.target.id
+        if dname is None or any(isinstance(x, (ast.Break, ast.Continue)) for b in s.body for x in ast.walk(b)):
+            return
+        stores = [b for b in s.body if isinstance(b, ast.Assign) and len(b.targets) == 1 and isinstance(b.targets[0], ast.Subscript)
+                  and isinstance(b.targets[0].value, ast.Name) and b.targets[0].value.id == dname
+                  and isinstance(b.targets[0].slice, ast.Name) and b.targets[0].slice.id == kname]
+        if len(stores) != 1:
+            return
+        # the key variable must not be rebound before the store
+        upto = s.body[:s.body.index(stores[0])]
+        if any(isinstance(n, ast.Name) and n.id in (kname, dname) and isinstance(n.ctx, ast.Store) for b in upto for n in ast.walk(b)):
+            return
+        dav = before.env.get(dname)
+        if dav is None or len(dav.origins) != 1 or next(iter(dav.origins))[0] != "F":
+            return
+        o = next(iter(dav.origins))
+        probe = cur.copy()
+        self.assign(s.target, elem, probe, s)
+        out = self.block(upto, probe)
+        if out is None:
+            return
+        xv = self.expr(stores[0].value, out)
+        after.heap[(o, ELEM)] = (xv, False)
 
     def while_(self, s: ast.While, st: State) -> Optional[State]:
         ctx = _LoopCtx()
